@@ -235,6 +235,13 @@ def run(ctx):
                       "x in ('b', 'a', 'c', 'b', 'd', 'e', 'a')", "g in (01234567-89ab-cdef-0123-456789abcdef, 11234567-89ab-cdef-0123-456789abcdef, 01234567-89ab-cdef-0123-456789abcdef)",
                       "d in (2020-01-02, 2020-01-01, 2020-01-02)", "concat(concat(b, a), concat(a, b)) eq concat(a, a)",
                       "a eq 1 or b eq 2 or a eq 1 or c eq 3 or b eq 2", "hassubset((3, 1, 2, 3), (1, 1))", "n in (1.5, 1.0, 1.5, 2e0)"]
+    # every built-in with one argument too many / too few: importing a back-end must not change the function table
+    for fn, n in (("round", 1), ("floor", 1), ("ceiling", 1), ("substring", 3), ("trim", 1), ("concat", 2), ("contains", 2), ("year", 1),
+                  ("indexof", 2), ("tolower", 1), ("toupper", 1), ("now", 0), ("date", 1), ("time", 1), ("second", 1), ("startswith", 2),
+                  ("endswith", 2), ("hassubset", 2), ("geo.distance", 2), ("geo.length", 1), ("matchesPattern", 2), ("totalseconds", 1)):
+        corpus.append("%s(%s) eq 1" % (fn, ", ".join(["a"] * (n + 1))))
+        if n > 0:
+            corpus.append("%s(%s) eq 1" % (fn, ", ".join(["a"] * (n - 1))))
     orders = [([], ["odata_query.sqlalchemy", "odata_query.django", "odata_query.sql", "odata_query.roundtrip", "odata_query.rewrite"]),
               (["odata_query.sqlalchemy"], ["odata_query.sql"]),
               (["django-setup", "odata_query.django"], ["odata_query.sqlalchemy"]),
